@@ -3,6 +3,7 @@ package main
 import (
 	"errors"
 	"fmt"
+	"io"
 	"net"
 	"os"
 	"regexp"
@@ -14,6 +15,9 @@ import (
 	"time"
 
 	"github.com/pinealctx/neptune/stcp"
+	"github.com/pinealctx/neptune/ulog"
+	"go.uber.org/zap"
+	"go.uber.org/zap/zapcore"
 )
 
 // ---------------------------------------------------------------- fault-injecting connection (server side of a net.Pipe)
@@ -438,6 +442,9 @@ type world struct {
 	emgr    *stcp.EchoMgr
 	srv     *stcp.Server
 	addr    string // tcp worlds: where the server listens
+	prevLogger *ulog.Logger
+	accMu      sync.Mutex
+	accPanic   string // the accept loop died of this panic
 	broken  bool   // an environment assumption of the property was broken on purpose (xpanic/xblock)
 	pl      *pipeListener
 	tl      net.Listener
@@ -473,17 +480,26 @@ func newWorld(max int, mode string) *world {
 		w.wt = shortWrite
 	}
 	switch mode {
-	case "pipe", "rt", "wt":
+	case "pipe", "rt", "wt", "plog", "wlog":
+		opts := append([]stcp.Option{maxOpt}, acceptOpts...)
+		switch mode {
+		case "plog":
+			// what an application does at start-up: install its own default logger (restored when the world goes)
+			w.prevLogger = ulog.GetDefaultLogger()
+			ulog.SetDefaultLogger(discardLogger())
+		case "wlog":
+			opts = append(opts, stcp.WithLogger(discardLogger())) // a logger handed to the server: SetLogger path
+		}
 		w.mgr = stcp.NewSessionMgr(w.h, stcp.WithReadTimeout(w.rt), stcp.WithWriteTimeout(w.wt))
 		w.srv = stcp.NewTCPSrv("c16", w.mgr)
 		w.pl = newPipeListener()
-		go func() { w.srvErr <- w.srv.VerifServe(w.pl, append([]stcp.Option{maxOpt}, acceptOpts...)...) }()
+		go w.serve(func() error { return w.srv.VerifServe(w.pl, opts...) })
 	case "echo":
 		w.echo = true
 		w.emgr = stcp.NewEchoMgr(echoHandler{w.h.registry}, stcp.WithReadTimeout(w.rt), stcp.WithWriteTimeout(w.wt))
 		w.srv = stcp.NewTCPSrv("c16", w.emgr)
 		w.pl = newPipeListener()
-		go func() { w.srvErr <- w.srv.VerifServe(w.pl, append([]stcp.Option{maxOpt}, acceptOpts...)...) }()
+		go w.serve(func() error { return w.srv.VerifServe(w.pl, append([]stcp.Option{maxOpt}, acceptOpts...)...) })
 	case "tcp":
 		w.tcp = true
 		w.mgr = stcp.NewSessionMgr(w.h, stcp.WithReadTimeout(w.rt), stcp.WithWriteTimeout(w.wt))
@@ -494,7 +510,7 @@ func newWorld(max int, mode string) *world {
 			return w
 		}
 		w.tl, w.addr = l, l.Addr().String()
-		go func() { w.srvErr <- w.srv.VerifServe(l, maxOpt) }()
+		go w.serve(func() error { return w.srv.VerifServe(l, maxOpt) })
 	case "pub", "publ", "pubx":
 		// the REAL public path: constructor, Start / LoopStart, startListen, option plumbing, DEFAULT manager timeouts.
 		// The public API cannot report a port chosen by the kernel, so a free port is picked first; if somebody
@@ -555,6 +571,36 @@ func newWorld(max int, mode string) *world {
 		}
 	}
 	return w
+}
+
+// serve runs the accept loop in a goroutine of the harness. A panic inside it (the loop itself, or a log statement
+// it executes) would kill the process; here it can be caught: the loop is gone, which the following lines show
+// (`r=panic:…`, connections lost) and a monitor hit names.
+func (w *world) serve(run func() error) {
+	defer func() {
+		if p := recover(); p != nil {
+			w.accMu.Lock()
+			w.accPanic = fmt.Sprint(p)
+			w.accMu.Unlock()
+			w.srvErr <- fmt.Errorf("panic: %v", p)
+		}
+	}()
+	w.srvErr <- run()
+}
+
+func (w *world) acceptPanic() string {
+	w.accMu.Lock()
+	defer w.accMu.Unlock()
+	return w.accPanic
+}
+
+// discardLogger: a user-made logger (debug level, every line encoded, bytes discarded)
+func discardLogger() *ulog.Logger {
+	enc := zap.NewProductionEncoderConfig()
+	sink := zap.WrapCore(func(zapcore.Core) zapcore.Core {
+		return zapcore.NewCore(zapcore.NewJSONEncoder(enc), zapcore.AddSync(io.Discard), zapcore.DebugLevel)
+	})
+	return ulog.NewSimpleLogger(ulog.DebugLevelStr, zap.AddCaller(), sink)
 }
 
 // tcpListening reports whether some socket listens on addr, without connecting to it (/proc/net/tcp, state 0A).
@@ -671,7 +717,7 @@ func (w *world) waitFor(cond func() bool) {
 // settle brings the world to the next observation point after an op.
 func (w *world) settle(cond func() bool) {
 	switch w.mode {
-	case "pipe", "echo":
+	case "pipe", "echo", "plog", "wlog":
 		w.quiesce()
 	case "rt", "pubx":
 		// every read deadline expires: wait until all sessions are over (tcp: and the client has seen the close)
@@ -810,7 +856,7 @@ func (w *world) connectN(n int) (acc, rej, lost int) {
 			lost++
 		}
 	}
-	if w.mode == "pipe" || w.mode == "echo" {
+	if w.mode == "pipe" || w.mode == "echo" || w.mode == "plog" || w.mode == "wlog" {
 		w.settle(nil)
 	} else {
 		w.waitFor(func() bool {
@@ -1323,6 +1369,9 @@ func (w *world) destroy() {
 	select {
 	case <-w.srvErr:
 	case <-time.After(ceiling):
+	}
+	if w.prevLogger != nil {
+		ulog.SetDefaultLogger(w.prevLogger)
 	}
 	deadline := time.Now().Add(ceiling)
 	for time.Now().Before(deadline) {
